@@ -206,7 +206,8 @@ Fixpoint cint (e : sexpr) : option Z :=
   | _ => None
   end.
 
-Inductive eres := EFresh (k : rkind) (may_fail : bool) | EKey (k : key) | EInt (z : Z) | EUnk.
+Inductive eres := EFresh (k : rkind) (may_fail : bool) | EFreshMv (k : rkind) (src : key) | EKey (k : key) | EInt (z : Z) | EUnk.
+(* EFreshMv k src: a fresh resource of kind k that, when the acquisition succeeds, takes over the one held in [src] (fdopen: the stream owns the descriptor) *)
 
 Definition release (k : rkind) (what : string) (r : eres) (s : rs) : rs :=
   match r with
@@ -255,7 +256,7 @@ Definition receive_out (T : rtab) (realloc : bool) (s : rs) (a : sexpr) : rs :=
   end.
 
 Definition fresh_dropped (r : eres) (s : rs) : rs :=
-  match r with EFresh _ _ => add_leak s (KV "<acquired and dropped>") | _ => s end.
+  match r with EFresh _ _ | EFreshMv _ _ => add_leak s (KV "<acquired and dropped>") | _ => s end.
 
 Section Sem.
   Variable T : rtab.
@@ -267,7 +268,11 @@ Section Sem.
     | Some k => [(release k f (hd EUnk rsl) s, EUnk)]
     | None =>
     match assoc String.eqb (t_acq T) f with
-    | Some k => [(fresh_dropped (hd EUnk rsl) s, EFresh k (match k with KHeap => t_heap_fails T | _ => true end))]
+    | Some k =>
+      match String.eqb f "fdopen", hd EUnk rsl with
+      | true, EKey y => match getv s (resolve s y) with VOwn KFd => [(s, EFreshMv k (resolve s y))] | _ => [(s, EFresh k true)] end
+      | _, _ => [(fresh_dropped (hd EUnk rsl) s, EFresh k (match k with KHeap => t_heap_fails T | _ => true end))]
+      end
     | None =>
     let s := fresh_dropped (hd EUnk rsl) s in
     if str_in f (t_sopen T) then [(add_sess s 1, EUnk)]
@@ -285,6 +290,7 @@ Section Sem.
     match r with
     | EFresh k mf => seti T (overwrite T s x (VOwn k)) x None
                   :: (if mf then [seti T (overwrite T s x (match k with KFd => VNeg | _ => VNull end)) x None] else [])
+    | EFreshMv k y => [setv (seti T (overwrite T s x (VOwn k)) x None) y VOther; seti T (overwrite T s x VNull) x None]
     | EKey y =>
       let s1 := seti T s x (geti s y) in
       match getv s y with
@@ -444,11 +450,11 @@ Section Sem.
                       match getv s1 y with
                       | VOwn _ => [ONorm (add_outp (setv s1 y VOther) i)]
                       | _ => [ONorm s1] end
-          | EFresh _ _ => [ONorm (add_outp s1 i)]
+          | EFresh _ _ | EFreshMv _ _ => [ONorm (add_outp s1 i)]
           | _ => [ONorm s1]
           end
         | Some x => map ONorm (assign_key x rr s1)
-        | None => map (fun '(s2, _) => ONorm (match rr with EFresh _ _ => add_bad s2 "acquired resource stored into an untracked lvalue" | _ => s2 end)) (eval l s1)
+        | None => map (fun '(s2, _) => ONorm (match rr with EFresh _ _ | EFreshMv _ _ => add_bad s2 "acquired resource stored into an untracked lvalue" | _ => s2 end)) (eval l s1)
         end) (eval r s)
     | SIf c t e =>
       dedup outc_eqb (flat_map (fun '(s1, b) => (if may_true b then seq t s1 else []) ++ (if may_false b then seq e s1 else [])) (cond c s))
@@ -459,6 +465,7 @@ Section Sem.
       map (fun '(s1, r) =>
         match r with
         | EFresh k _ => ORet s1 (VOwn k)
+        | EFreshMv k y => ORet (setv s1 y VOther) (VOwn k)
         | EKey y0 => let y := resolve s1 y0 in
                     match getv s1 y with
                     | VOwn k => ORet (setv s1 y VOther) (VOwn k)
